@@ -2,6 +2,7 @@
 from __future__ import annotations
 
 import ast
+import re
 
 from ..alg import AtomTable, Rat, sign_of
 from ..cfg import build_cfg, guards_of, parent_map
@@ -104,7 +105,8 @@ def check(ctx):
            detail={"got": str(new), "want": str(want_clip)}, where=fu.fq, construct="self.tentative_dt",
            loc=loc(fu, blk), message=f"proposed step is {new}",
            consequence="the adaptive step does not follow the documented rule (eq. dt-tentative)")
-    ok = any(">" in d and "adaptive_window" in d and "step" in d and ">=" not in d for d in decided)
+    # canonical spelling (src._CanonCompare): `step > window` reads `window < step`
+    ok = any(re.fullmatch(r".*adaptive_window < .*step.*", d) for d in decided)
     ctx.ob("R12.1", "the rule applies only for step > window (warm-up)", ok, detail=decided, where=fu.fq,
            construct="warm-up guard", loc=loc(fu, blk), message=f"guards decided: {decided}",
            consequence="the step is adapted before the window is filled (mean over fewer values than documented)")
@@ -180,9 +182,10 @@ def retry_loop(ctx):
         if isinstance(e, ast.Break) and t == ["R is not None"]:
             kinds["success"] += 1
         elif isinstance(e, ast.Raise) and len(t) == 1 and t[0] in (
-                "not self.options.adaptive or N > self.options.max_solve_retries",
-                "N > self.options.max_solve_retries or not self.options.adaptive",
-                "not self.options.adaptive or N >= self.options.max_solve_retries"):
+                # canonical spelling: `N > max` reads `max < N`
+                "not self.options.adaptive or self.options.max_solve_retries < N",
+                "self.options.max_solve_retries < N or not self.options.adaptive",
+                "not self.options.adaptive or self.options.max_solve_retries <= N"):
             kinds["giveup"] += 1
         else:
             bad.append(f"L{e.lineno} {type(e).__name__} under {t}")
